@@ -44,7 +44,7 @@ def gen():
         lines = open(path).read().split("\n")
         in_tests = False
         for i, l in enumerate(lines):
-            if re.match(r"\s*mod tests", l) or "#[cfg(test)]" in l and "mod" in (lines[i + 1] if i + 1 < len(lines) else ""):
+            if re.match(r"\s*mod tests\s*\{", l):
                 in_tests = True
             if in_tests or l.strip().startswith("//") or in_verif_cfg(lines, i):
                 continue
